@@ -101,12 +101,19 @@ def run_subprocess(acc):
     env_default['PYTHONHASHSEED'] = '1'
     env_unbuf = dict(env_default, PYTHONUNBUFFERED='1')
     env = env_default
-    conds = ['devnull', 'closed', 'pipe_eof', 'pipe_open', 'pipe_status_then_eof', 'pipe_open unbuffered', 'pipe_eof unbuffered']
+    # (... limited: the run ends because -n was reached, which is another way out of the generation loop than an empty queue)
+    conds = ['devnull', 'closed', 'pipe_eof', 'pipe_open', 'pipe_status_then_eof', 'pipe_open unbuffered', 'pipe_eof unbuffered',
+             'pipe_open limited', 'devnull limited', 'pipe_open limited unbuffered']
+    base_cmd = cmd
     for cond in conds:
         acc.evals += 1
         kw = {}
         env = env_unbuf if cond.endswith(' unbuffered') else env_default
         label = cond + ('' if cond.endswith(' unbuffered') else ' (default output buffering)')
+        limited = ' limited' in cond
+        nlim = max(1, len(U.stdout) // 2)
+        cmd = base_cmd + (['-n', str(nlim)] if limited else [])
+        want = U.stdout[:nlim] if limited else U.stdout
         cond = cond.split(' ')[0]
         if cond == 'devnull':
             p = subprocess.Popen(cmd, stdin=subprocess.DEVNULL, stdout=subprocess.PIPE, stderr=subprocess.DEVNULL, env=env)
@@ -119,22 +126,34 @@ def run_subprocess(acc):
             elif cond == 'pipe_status_then_eof':
                 p.stdin.write(b'\nh\n')
                 p.stdin.close()
+        import threading as _th0
+        got = {}
+        rd = _th0.Thread(target=lambda: got.__setitem__('out', p.stdout.read()), daemon=True)     # for pipe_open stdin is held open by us all along
+        rd.start()
         try:
-            out = p.stdout.read()          # returns when the child exits; for pipe_open stdin is held open by us all along
             p.wait(60)
-            if cond == 'pipe_open':
-                p.stdin.close()
         except subprocess.TimeoutExpired:
             p.kill()
-            acc.fail({'scenario': 'subprocess', 'stdin': label}, 'real process with stdin=%s did not finish' % label, 'subprocess-hang')
+            rd.join(10)
+            n_out = len((got.get('out') or b'').split(b'\n')) - 1
+            acc.fail({'scenario': 'subprocess', 'stdin': label}, 'real process with stdin=%s did not end within 60 s of being started (%d of %d lines had reached its standard output by then)'
+                     % (label, n_out, len(want)), 'subprocess-hang')
             continue
+        finally:
+            if cond == 'pipe_open':
+                try:
+                    p.stdin.close()
+                except Exception:
+                    pass
+        rd.join(30)
+        out = got.get('out') or b''
         lines = out.decode('utf-8').split('\n')
         if lines and lines[-1] == '':
             lines.pop()
         acc.nontrivial += 1
-        if lines != U.stdout:
+        if lines != want:
             acc.fail({'scenario': 'subprocess', 'stdin': label},
-                     'real process with stdin=%s wrote %d lines, the uninterrupted stream has %d' % (label, len(lines), len(U.stdout)), 'cut-without-quit')
+                     'real process with stdin=%s wrote %d lines, the %s stream has %d' % (label, len(lines), 'limited' if limited else 'uninterrupted', len(want)), 'cut-without-quit')
         S.clear_session(td)
     # a status request and a quit that arrive in ONE chunk on a pipe that stays open (typed ahead, or written by a front end): both are acted on.
     # The ruleset is large enough (60^4 single-guess pre-terminals) for the quit to arrive long before the stream ends.
